@@ -61,7 +61,9 @@ def _case(draw):
             "points": pts, "wd": wd, "twice": draw(st.booleans()), "sharer": draw(st.booleans()),
             "pref_velocity": draw(st.sampled_from(VEL)),
             # velocities given as bare numbers of the preferred velocity unit in force (instead of explicit quantities)
-            "bare_v": byv and draw(st.integers(0, 2)) == 0}
+            "bare_v": byv and draw(st.integers(0, 2)) == 0,
+            # history: the caller's own table (list of dicts) is edited in place between two builds from the same list object
+            "edit_then_rebuild": draw(st.one_of(st.none(), st.tuples(st.integers(1, 7), st.floats(0.5, 1.6))))}
 
 
 def _bcpoints(case):
@@ -190,6 +192,21 @@ def check(case):
         if model2.BC != model.BC or _table_snapshot(model2.drag_table) != _table_snapshot(model.drag_table):
             r.bad("C14:second-build-differs", "building twice from the same inputs gives different models")
         inputs_intact("building twice")
+    if case.get("edit_then_rebuild") and not r.violations:
+        every, factor = case["edit_then_rebuild"]
+        own = copy.deepcopy(std)
+        _build(case, bps, own)
+        pb.DragModel(0.3, own)
+        for j, d in enumerate(own):
+            if j % every == 0:
+                d["CD"] = d["CD"] * factor
+        for what, mk in (("multi-BC", lambda t: _build(case, bps, t)), ("single-BC", lambda t: pb.DragModel(0.3, t))):
+            same_obj, fresh_obj = mk(own), mk(copy.deepcopy(own))
+            if same_obj.BC != fresh_obj.BC or _table_snapshot(same_obj.drag_table) != _table_snapshot(fresh_obj.drag_table):
+                r.bad("C14:history:rebuild-after-in-place-table-edit", f"{what} model rebuilt from the caller's own table after every {every}. entry was "
+                      f"scaled by {factor!r} in place differs from the model built from an equal, fresh list")
+                break
+        r.label("rebuilt-after-table-edit")
     given = [p["mach"] for p in case["points"]]
     r.nontrivial = (len(given) >= 2 and given != sorted(given)) or case["form"] != "dicts" or case["twice"]
     return r
